@@ -1,6 +1,7 @@
 import SF.Props.C11
 #print axioms SF.C11.superSmoother_eq
 #print axioms SF.C11.laguerreFilter_eq
+#print axioms SF.C11.laguerreRsi_eq
 #print axioms SF.C11.laguerre_ladder_step
 #print axioms SF.C11.roofing_eq
 #print axioms SF.C11.roofing_hp_step
